@@ -1,6 +1,7 @@
 //! One module per property: the enumerated space and the oracle projection.
 use crate::engine::{Replayer, Run};
 
+pub mod c01;
 pub mod common;
 pub mod enc;
 pub mod encprops;
@@ -11,6 +12,7 @@ pub mod c19;
 pub type Runner = fn(&mut Run);
 
 pub const ALL: &[(&str, Runner, Replayer)] = &[
+    ("C01", c01::run, c01::replay),
     ("C03", encprops::run_c03, encprops::replay_c03),
     ("C04", encprops::run_c04, encprops::replay_c04),
     ("C05", encprops::run_c05, encprops::replay_c05),
